@@ -7,6 +7,7 @@ package main
 
 import (
 	"bytes"
+	"context"
 	"fmt"
 	"io"
 	"math/rand"
@@ -31,7 +32,7 @@ func (w *world) startH2() {
 		tr.DisableCompression = true // no Accept-Encoding of the client library's own, no transparent decoding
 		tr.MaxIdleConnsPerHost = 32
 	}
-	cl.Timeout = 60 * time.Second
+	cl.Timeout = 0 // every request carries its own deadline (roundTripH2): a scripted upstream may wait longer than any fixed one
 	cl.CheckRedirect = func(*http.Request, []*http.Request) error { return http.ErrUseLastResponse }
 	w.h2, w.h2client = srv, cl
 }
@@ -87,7 +88,7 @@ func toH2(r *rand.Rand, cs *Case) bool {
 }
 
 // roundTripH2 sends the request with an HTTP/2 client and reads the whole answer.
-func (w *world) roundTripH2(r ReqSpec, id string) (*e2e.Response, error) {
+func (w *world) roundTripH2(r ReqSpec, id string, timeout time.Duration) (*e2e.Response, error) {
 	u, ok := h2URL(w.h2.Listener.Addr().String(), rig.UnHex(r.Target))
 	if !ok {
 		return nil, fmt.Errorf("harness: target %q cannot be sent by the HTTP/2 client", rig.UnHex(r.Target))
@@ -114,7 +115,9 @@ func (w *world) roundTripH2(r ReqSpec, id string) (*e2e.Response, error) {
 	default:
 		body = bytes.NewReader(bd)
 	}
-	req, err := http.NewRequest(rig.UnHex(r.Method), u.String(), body)
+	ctx, cancel := context.WithTimeout(context.Background(), timeout)
+	defer cancel()
+	req, err := http.NewRequestWithContext(ctx, rig.UnHex(r.Method), u.String(), body)
 	if err != nil {
 		return nil, err
 	}
